@@ -11,7 +11,7 @@
    the request, [mac] only for the MAC inputs of the datagrams the answers
    belong to. *)
 From Coq Require Import ZArith List String Bool.
-From ST Require Import Base.Ints Base.Value Model.ScionGlue Model.ScionGlueOracle Model.DrkeyCache Extract.GlueBase.
+From ST Require Import Base.Ints Base.Value Model.ScionGlue Model.ScionGlueOracle Model.DrkeyCache Model.SvcSpao Extract.GlueBase.
 Import ListNotations.
 Open Scope list_scope.
 Open Scope Z_scope.
@@ -389,6 +389,50 @@ Definition cache_case (a o : list value) : verdict :=
   | _, _ => relational false true
   end.
 
+(* ---- service wiring: args [modes nrefs npeers]; outs [finished [[peer [[auth drkey fetcher] ...]] ...]] ---- *)
+Fixpoint parse_svcclients (l : list value) : option (list svcclient) :=
+  match l with
+  | [] => Some []
+  | VL [VZ a; VZ d; VZ f] :: r =>
+      match parse_svcclients r with Some cs => Some (mkSvcclient (negb (a =? 0)) (negb (d =? 0)) f :: cs) | None => None end
+  | _ => None
+  end.
+
+Fixpoint parse_svcclocks (l : list value) : option (list svcclock) :=
+  match l with
+  | [] => Some []
+  | VL [VZ p; VL cl] :: r =>
+      match parse_svcclients cl, parse_svcclocks r with
+      | Some cs, Some ks => Some (mkSvcclock (negb (p =? 0)) cs :: ks)
+      | _, _ => None
+      end
+  | _ => None
+  end.
+
+Definition svcclient_eqb (a b : svcclient) : bool :=
+  Bool.eqb (sc_auth a) (sc_auth b) && Bool.eqb (sc_drkey a) (sc_drkey b) && Bool.eqb (sc_fetcher a =? 0) (sc_fetcher b =? 0).
+
+Fixpoint list_eqb {A} (f : A -> A -> bool) (a b : list A) : bool :=
+  match a, b with
+  | [], [] => true
+  | x :: a', y :: b' => f x y && list_eqb f a' b'
+  | _, _ => false
+  end.
+
+Definition svc_case (a o : list value) : verdict :=
+  match a, o with
+  | [VL modesv; VZ nrefs; VZ npeers], [VZ fin; VL clocksv] =>
+      match getZs modesv, parse_svcclocks clocksv with
+      | Some modes, Some cs =>
+          let m := model_clocks modes (Z.to_nat nrefs) (Z.to_nat npeers) in
+          relational (negb (fin =? 0) &&
+                      list_eqb (fun x y => Bool.eqb (sk_peer x) (sk_peer y) && list_eqb svcclient_eqb (sk_clients x) (sk_clients y)) m cs)
+                     (C13_svc_spao_ok modes (Z.to_nat nrefs) (Z.to_nat npeers) (negb (fin =? 0)) cs)
+      | _, _ => relational false true
+      end
+  | _, _ => relational false true
+  end.
+
 (* ---- the constants and option accessors of net/scion/auth.go against the model's ---- *)
 Definition consts_case (o : list value) : verdict :=
   functional
@@ -413,6 +457,7 @@ Definition glue_C13 (k : string) (a o : list value) : option verdict :=
   if is k "srv" || is k "srv.probe" || is k "srv.keyed" || is k "srv.par" then Some (srv_case false false a o)
   else if is k "srv.strict" then Some (srv_case true false a o)
   else if is k "srv.scmpauth" then Some (srv_case false true a o)
+  else if is k "svc.spao" then Some (svc_case a o)
   else if is k "drkey.cache" then Some (cache_case a o)
   else if is k "scion.consts" then Some (consts_case o)
   else if is k "scion.authopt" then Some (authopt_case a o)
